@@ -270,6 +270,28 @@ def p_gateway( ctx ):
                     if isinstance( a, ( ast.FunctionDef, )):
                         break
                 return None
+            def consumption_sites( scope, call ):
+                """where the generator made by `call` is actually iterated: the call itself when it is consumed in place, else every
+                iteration ( list / tuple / for / next / yield from ) of the local it is bound to"""
+                names = set()
+                for a in ast.walk( scope ):
+                    if isinstance( a, ast.Assign ) and any( call is x for x in ast.walk( a.value )) and isinstance( a.targets[0], ast.Name ):
+                        names.add( a.targets[0].id )
+                    if isinstance( a, ast.With ):
+                        for it in a.items:
+                            if any( call is x for x in ast.walk( it.context_expr )) and isinstance( it.optional_vars, ast.Name ):
+                                names.add( it.optional_vars.id )
+                if not names:
+                    return [ call ]
+                sites = []
+                for a in ast.walk( scope ):
+                    if isinstance( a, ast.Call ) and call_name( a ) in ( 'list', 'tuple', 'next', 'sorted', 'dict', 'set' ) and a.args and dotted( a.args[0] ) in names:
+                        sites.append( a )
+                    if isinstance( a, ( ast.For, ast.comprehension )) and dotted( a.iter ) in names:
+                        sites.append( a.iter if isinstance( a, ast.comprehension ) else a )
+                    if isinstance( a, ast.YieldFrom ) and dotted( a.value ) in names:
+                        sites.append( a )
+                return sites or [ call ]
             is_gen_helper = any( isinstance( y, ( ast.Yield, ast.YieldFrom )) for y in walk_no_nested( fn ))
             if is_gen_helper:
                 # call sites of the helper
@@ -278,12 +300,16 @@ def p_gateway( ctx ):
                         recv2 = c2.args[0].id
                         n_sites += 1
                         recv_saved = recv; recv = recv2
-                        p = protected( c2 )
+                        scope2 = s.enclosing( c2, ( ast.FunctionDef, )) or s.tree
+                        sites = consumption_sites( scope2, c2 )
+                        ps = [ protected( x ) for x in sites ]
                         recv = recv_saved
-                        if p:
-                            res.ok( s, c2, 'generator %s( %s ... ) consumed under %s' % ( fn.name, recv2, p ))
+                        if all( ps ):
+                            res.ok( s, c2, 'generator %s( %s ... ) consumed under %s' % ( fn.name, recv2, ps[0] ))
                         else:
-                            res.bad( s, c2, c2, 'a proxy I/O generator is consumed outside `with <proxy>:`: an I/O failure leaves the broken connection in place for the next use' )
+                            bad_site = [ x for x, p_ in zip( sites, ps ) if not p_ ][0]
+                            res.bad( s, bad_site, '%s( %s, ... ) is iterated outside `with %s:` ( %s )' % ( fn.name, recv2, recv2, norm_text( bad_site )[:60] ),
+                                     'the generator is lazy: all its I/O happens where it is iterated, not where it is created; a failure there no longer reaches the proxy\'s __exit__, so the dead gateway is kept and every later poll fails without reconnecting' )
             else:
                 n_sites += 1
                 p = protected( target )
@@ -600,4 +626,33 @@ def p_chain( ctx ):
             if isinstance( d, ( ast.Call, ast.List, ast.Dict, ast.Set )):
                 res.bad( src, d, '%s( ..., %s=%s )' % ( qn, p_.arg, norm_text( d )), 'a stateful default argument is created once and shared by every call: all sessions parse from one buffer', func=qn )
         res.ok( src, fn, '%s: no stateful default arguments' % qn, nontrivial=False )
+    return res
+
+
+@rule( 'T-OPOFFSET', props=( 'C12', ), floor=1 )
+def t_opoffset( ctx ):
+    """parse_operations: an operation carries a byte offset iff the text has a '+<number>' part - decided by the presence of the TEXT, not by
+    the truthiness of the number ( '+0' is an explicit offset 0 and selects the Fragmented service )"""
+    res = Result( 'T-OPOFFSET' )
+    from .rules_paths import LocalDefs
+    src = ctx.src( CLIENT )
+    fn = src.get( 'parse_operations' )
+    ld = LocalDefs( fn )
+    stores = [ s for s in ast.walk( fn ) if isinstance( s, ast.Assign ) and any( isinstance( t, ast.Subscript ) and try_fold( t.slice ) == 'offset' for t in s.targets ) ]
+    if not stores:
+        raise AnalysisError( "parse_operations: store of the operation's 'offset' not found" )
+    for s in stores:
+        guards = [ a for a in src.ancestors( s ) if isinstance( a, ast.If ) and any( s is x for b in a.body for x in ast.walk( b )) ]
+        g = guards[0] if guards else None
+        if g is None or not isinstance( g.test, ast.Name ):
+            raise AnalysisError( 'parse_operations: guard of the offset store not recognised' )
+        N = g.test.id
+        numeric = [ d for d in ld.defs.get( N, [] ) if any( is_call_to( c, 'int', 'float' ) for c in ast.walk( d )) or isinstance( try_fold( d ), ( int, float )) ]
+        if numeric:
+            res.bad( src, g, 'if %s: ... with %s = %s' % ( N, N, norm_text( numeric[0] )),
+                     "the offset is dropped when its NUMBER is falsy: 'TAG[0-5]+0' loses its explicit offset 0, is sent as an un-fragmented Read/Write Tag (or rejected as a partial write) instead of Read/Write Tag Fragmented at offset 0" )
+        elif pmatch( s.value, 'int( %s )' % N ) is not None:
+            res.ok( src, s, "the offset is stored whenever the '+' part of the text is non-empty ( '+0' included ), as int( text )" )
+        else:
+            res.bad( src, s, s, "the stored offset must be int( <the text after '+'> )" )
     return res
